@@ -84,6 +84,81 @@ Proof.
 Qed.
 
 (* ------------------------------------------------------------------ *)
+(** * Python equality is symmetric on hash records
+      (dicts algorithm -> digest string, each algorithm listed once) *)
+
+Definition hash_record (j : json) : Prop :=
+  exists l, j = JDict l /\ NoDup (keys l) /\ forall k v, In (k, v) l -> exists s, v = JStr s.
+
+Definition dict_sub (x y : list (str * json)) : bool :=
+  forallb (fun kv => match lookup (fst kv) y with Some b => py_eqb (snd kv) b | None => false end) x.
+
+Lemma py_eqb_dict : forall x y, py_eqb (JDict x) (JDict y) = Nat.eqb (length x) (length y) && dict_sub x y.
+Proof.
+  intros x y. cbn [py_eqb]. f_equal. induction x as [|[k a] x IH]; [reflexivity|].
+  cbn [dict_sub forallb fst snd]. rewrite IH. reflexivity.
+Qed.
+
+Lemma lookup_In : forall (A : Type) (k : str) (v : A) (l : list (str * A)), lookup k l = Some v -> In (k, v) l.
+Proof.
+  intros A k v l. induction l as [|[k' v'] l IH]; cbn [lookup]; intro H; [discriminate|].
+  destruct (eqs k k') eqn:E.
+  - apply eqs_eq in E. inversion H; subst. left. reflexivity.
+  - right. apply IH. exact H.
+Qed.
+
+Lemma In_lookup_nodup : forall (A : Type) (k : str) (v : A) (l : list (str * A)),
+  NoDup (keys l) -> In (k, v) l -> lookup k l = Some v.
+Proof.
+  intros A k v l. induction l as [|[k' v'] l IH]; intros Hnd Hin; [destruct Hin|].
+  cbn [keys map fst] in Hnd. inversion Hnd as [|? ? Hnotin Hnd']; subst. cbn [lookup].
+  destruct Hin as [Heq|Hin].
+  - inversion Heq; subst. rewrite eqs_refl. reflexivity.
+  - destruct (eqs k k') eqn:E.
+    + exfalso. apply Hnotin. apply eqs_eq in E. subst k'.
+      change k with (fst (k, v)). apply in_map. exact Hin.
+    + apply IH; assumption.
+Qed.
+
+Lemma nodup_keys_nodup : forall (A : Type) (l : list (str * A)), NoDup (keys l) -> NoDup l.
+Proof.
+  intros A l. induction l as [|[k v] l IH]; intro H; [constructor|].
+  cbn [keys map fst] in H. inversion H as [|? ? Hnotin Hnd]; subst. constructor; [|apply IH; exact Hnd].
+  intro Hin. apply Hnotin. change k with (fst (k, v)). apply in_map. exact Hin.
+Qed.
+
+Lemma py_eqb_str_eq : forall s b, py_eqb (JStr s) b = true -> b = JStr s.
+Proof. intros s b H. destruct b; try discriminate. cbn [py_eqb] in H. apply eqs_eq in H. subst. reflexivity. Qed.
+
+Lemma dict_sub_swap : forall x y,
+  NoDup (keys x) -> NoDup (keys y) ->
+  (forall k v, In (k, v) x -> exists s, v = JStr s) -> (forall k v, In (k, v) y -> exists s, v = JStr s) ->
+  length x = length y -> dict_sub x y = true -> dict_sub y x = true.
+Proof.
+  intros x y Hx Hy Sx Sy Hlen Hsub. unfold dict_sub in *. rewrite forallb_forall in Hsub.
+  assert (incl x y) as Hincl.
+  { intros [k a] Hin. specialize (Hsub _ Hin). cbn [fst snd] in Hsub.
+    destruct (lookup k y) as [b|] eqn:El; [|discriminate].
+    destruct (Sx k a Hin) as [s ->]. apply py_eqb_str_eq in Hsub. subst b. apply lookup_In. exact El. }
+  assert (incl y x) as Hback.
+  { apply NoDup_length_incl; [apply nodup_keys_nodup; exact Hx | rewrite Hlen; apply le_n | exact Hincl]. }
+  apply forallb_forall. intros [k b] Hin. cbn [fst snd].
+  rewrite (In_lookup_nodup _ k b x Hx (Hback _ Hin)).
+  destruct (Sy k b Hin) as [s ->]. cbn [py_eqb]. apply eqs_refl.
+Qed.
+
+Lemma py_eqb_sym_hash : forall a b, hash_record a -> hash_record b -> py_eqb a b = py_eqb b a.
+Proof.
+  intros a b (x & -> & Hx & Sx) (y & -> & Hy & Sy). rewrite !py_eqb_dict.
+  destruct (Nat.eqb (length x) (length y)) eqn:El.
+  - apply Nat.eqb_eq in El. rewrite <- El, Nat.eqb_refl. cbn [andb].
+    destruct (dict_sub x y) eqn:E1; destruct (dict_sub y x) eqn:E2; try reflexivity.
+    + rewrite (dict_sub_swap x y Hx Hy Sx Sy El E1) in E2. discriminate.
+    + rewrite (dict_sub_swap y x Hy Hx Sy Sx (eq_sym El) E2) in E1. discriminate.
+  - rewrite Nat.eqb_sym, El. reflexivity.
+Qed.
+
+(* ------------------------------------------------------------------ *)
 (** * The honest scenario *)
 
 (** one step of the chain as it was carried out: the layout's step entry, the functionary's key id and
@@ -102,6 +177,12 @@ Definition h_name (h : hstep) : str := st_name (h_step h).
 Definition own_sym (lk : link) : Prop :=
   forall a hm hp, lookup a (l_materials lk) = Some hm -> lookup a (l_products lk) = Some hp ->
                   py_eqb hp hm = py_eqb hm hp.
+
+(** (H5) holds for every link whose artifact maps hold hash records *)
+Lemma hash_records_own_sym : forall lk,
+  (forall a h, lookup a (l_materials lk) = Some h -> hash_record h) ->
+  (forall a h, lookup a (l_products lk) = Some h -> hash_record h) -> own_sym lk.
+Proof. intros lk Hm Hp a hm hp Em Ep. apply py_eqb_sym_hash; eauto. Qed.
 
 (** (H2, H5) step i+1 demands exactly the products of step i and started from them *)
 Definition follows (prev h : hstep) : Prop :=
@@ -464,5 +545,38 @@ Section Honest.
   Proof.
     intros md keys files subs l h0 rest i name H Hins Hci.
     destruct (verify_dir_unfold files subs) as [recs ->]. apply (honest_verify_body_inspection md keys files l); assumption.
+  Qed.
+  (* ---------------------------------------------------------------- *)
+  (** ** The statements of Props/C11.v: in_toto_verify at the root (step name ""), on the directory
+         alone and on any directory tree around it *)
+
+  Theorem honest_verifies : forall md keys files subs l h0 rest,
+    honest md keys files l h0 rest -> ly_inspect l = [] ->
+    let a := mkArgs md keys None (JStr []) in
+    let summary := summary_of (JStr []) h0 rest in
+    verify_body b64dec loads sig_ok now_s now_us exec files []
+                (verify_in_missing_dir b64dec loads sig_ok now_s now_us exec) a = (Ok summary, []) /\
+    verify b64dec loads sig_ok now_s now_us exec (Dir files subs) a = (Ok summary, []) /\
+    l_materials summary = l_materials (h_link h0) /\
+    l_products summary = l_products (h_link (last rest h0)).
+  Proof.
+    intros md keys files subs l h0 rest H Hins a summary. repeat split.
+    - apply (honest_verify_body md keys files l); assumption.
+    - apply (honest_verify md keys files subs l); assumption.
+  Qed.
+
+  Theorem honest_verifies_inspection : forall md keys files subs l h0 rest i,
+    honest md keys files l h0 rest -> ly_inspect l = [i] -> closing_inspection i h0 rest ->
+    let a := mkArgs md keys None (JStr []) in
+    let summary := summary_of (JStr []) h0 rest in
+    verify_body b64dec loads sig_ok now_s now_us exec files []
+                (verify_in_missing_dir b64dec loads sig_ok now_s now_us exec) a = (Ok summary, [Exec (in_run i)]) /\
+    verify b64dec loads sig_ok now_s now_us exec (Dir files subs) a = (Ok summary, [Exec (in_run i)]) /\
+    l_materials summary = l_materials (h_link h0) /\
+    l_products summary = l_products (h_link (last rest h0)).
+  Proof.
+    intros md keys files subs l h0 rest i H Hins Hci a summary. repeat split.
+    - apply (honest_verify_body_inspection md keys files l); assumption.
+    - apply (honest_verify_inspection md keys files subs l); assumption.
   Qed.
 End Honest.
